@@ -14,6 +14,7 @@ import (
 	"strconv"
 	"sync"
 	"sync/atomic"
+	"time"
 	"unsafe"
 )
 
@@ -106,6 +107,7 @@ type Result struct {
 	Probes     map[string]int
 	Leaked     int
 	InfraMsg   string
+	SimTime    time.Duration // simulated time that passed (only when a task slept on the fake clock)
 }
 
 type Sim struct {
@@ -118,6 +120,8 @@ type Sim struct {
 	closed   map[unsafe.Pointer]bool
 	mapCount map[string]int
 	steps    int
+	parks    int // number of park events (progress indicator)
+	simTime  time.Duration
 	sub      int // sub-step counter for Now(): distinct stamps inside one transition
 	hash     uint64
 	events   []string
@@ -217,6 +221,7 @@ func (s *Sim) park(t *task, st int) wakeMsg {
 		panic(abortSentinel{})
 	}
 	t.state = st
+	s.parks++
 	s.mu.Unlock()
 	m := <-t.wake
 	if m.abort {
@@ -248,6 +253,7 @@ func (s *Sim) enter(t *task) {
 func (s *Sim) leave(t *task, r any) {
 	s.mu.Lock()
 	t.state = stExited
+	s.parks++
 	s.current = nil
 	if s.byGoid[t.goid] == t {
 		delete(s.byGoid, t.goid)
@@ -501,9 +507,26 @@ func Run(cfg Config, root func()) *Result {
 			}
 			ts := s.enabled()
 			if len(ts) == 0 {
-				s.finishLocked(OutDeadlock, 0, "", "")
+				// Nothing can be scheduled. A task may be asleep on the fake clock
+				// (time.Sleep, a timer): let simulated time run by sleeping here, which
+				// in a synctest bubble advances the clock to the next timer once every
+				// goroutine is blocked. If nothing has moved afterwards, it is a deadlock.
+				before := s.parks
+				s.current = nil // whoever wakes up from the clock identifies itself by goroutine id
 				s.mu.Unlock()
-				return
+				time.Sleep(24 * time.Hour)
+				cfg.Wait()
+				s.mu.Lock()
+				s.simTime += 24 * time.Hour
+				moved := s.parks != before || s.done || s.rootDone
+				if !moved {
+					s.finishLocked(OutDeadlock, 0, "", "")
+					s.mu.Unlock()
+					return
+				}
+				s.probes["clock_advanced"]++
+				s.mu.Unlock()
+				continue
 			}
 			if len(ts) > 1 {
 				dr := 0
@@ -585,6 +608,7 @@ func Run(cfg Config, root func()) *Result {
 	}
 
 	s.res.Steps = s.steps
+	s.res.SimTime = s.simTime
 	s.res.Tasks = len(s.tasks)
 	s.res.EventHash = s.hash
 	s.res.Events = s.events
